@@ -110,3 +110,24 @@ pub unsafe fn forbid_mm_store_si128(p: *mut __m128i, a: __m128i) { assert!(false
 pub unsafe fn forbid_mm256_load_si256(p: *const __m256i) -> __m256i { assert!(false, "OBL !aligned_access_intrinsic_reached"); core::ptr::read_unaligned(p) }
 pub unsafe fn forbid_mm256_store_si256(p: *mut __m256i, a: __m256i) { assert!(false, "OBL !aligned_access_intrinsic_reached"); core::ptr::write_unaligned(p, a) }
 pub unsafe fn forbid_mm_stream_si128(p: *mut __m128i, a: __m128i) { assert!(false, "OBL !aligned_access_intrinsic_reached"); core::ptr::write_unaligned(p, a) }
+
+// ---- AESENCLAST (Intel SDM): state <- ShiftRows(state); state <- SubBytes(state); dst <- state xor key.
+// SubBytes is the AES S-box; the harnesses that use this model leave the table symbolic (AES_SBOX is
+// assigned from kani::any()), so what is proved holds for every byte substitution, in particular
+// for the AES S-box that both the instruction and the Groestl specification prescribe.
+pub static mut AES_SBOX: [u8; 256] = [0; 256];
+pub unsafe fn mm_aesenclast_si128(a: __m128i, key: __m128i) -> __m128i {
+    let s: [u8; 16] = transmute(a);
+    let k: [u8; 16] = transmute(key);
+    let mut o = [0u8; 16];
+    let mut c = 0;
+    while c < 4 {
+        let mut r = 0;
+        while r < 4 {
+            o[r + 4 * c] = AES_SBOX[s[r + 4 * ((c + r) % 4)] as usize] ^ k[r + 4 * c];
+            r += 1;
+        }
+        c += 1;
+    }
+    transmute(o)
+}
